@@ -39,9 +39,10 @@ RULE = (
     "each plus plain triples with zipped operands (thorough: triples with 2-key operands). count_sweep: five 2- and "
     "3-function pipelines x every sweep over their root arguments, Sweep object and list, with and without pandas. "
     "Zipped groups of unequal length are invalid input: executed once, outcome recorded, never flagged, never used as "
-    "operands. A case is distinct by its JSON form and counted non-trivial when all operands are zip-valid and the expected "
-    "result has >= 2 combinations (single, product, +), or the projection drops a key or merges duplicates (filtered_sweep), "
-    "or the swept list is non-empty (count_sweep)."
+    "operands. A case is distinct by its JSON form and counted non-trivial when it is zip-valid and: single - the groups span "
+    ">= 2 combinations, or exactly 1 and a decoration is present; product / + - every operand lists >= 1 combination and the "
+    "expected result has >= 2; filtered_sweep - the sweep lists >= 1 combination and the projection drops a key or merges "
+    "duplicates; count_sweep - the swept list is non-empty."
 )
 ASSUMPTIONS = [
     "row-major order is demanded only when dims is omitted or lists its groups in item order; otherwise multiset equality",
@@ -273,7 +274,11 @@ def eval_single(spec):
             if n != len(got_list):
                 viol.append(({"kind": "len-mismatch", "op": "single", "empty_items": empty_items},
                              f"len({show(spec)}) == {n} but list() has {len(got_list)} combinations: {got_list}"))
-    return viol, len(exp) >= 2 or (bool(exp) and extras_tag(spec) != "none"), f"single:n={len(exp)}", strata
+    look = dict((k, v) for k, v in spec["items"])
+    raw = 0 if empty_items else 1
+    for g in _groups(spec):
+        raw *= len(look[g[0]])
+    return viol, raw >= 2 or (raw == 1 and extras_tag(spec) != "none"), f"single:n={len(exp)}", strata
 
 
 def _cartesian(lists):
@@ -476,7 +481,7 @@ def eval_count(case):
     ups = _upstream(name, target)
     sig = {"op": "count_sweep", "use_pandas": use_pandas, "sweep_empty": not combos,
            "single_root_arg": any(len(r) == 1 for r in ups.values())}
-    strata = [f"count:{name},pandas={use_pandas},list={as_list}"]
+    strata = [f"count:pipeline={name}", f"count:pandas={use_pandas},list={as_list}"]
     txt = f"count_sweep({target!r}, {'<its list>' if as_list else ''}{show(spec)}, <{name}>, use_pandas={use_pandas})"
     try:
         got = count_sweep(target, [dict(c) for c in combos] if as_list else build(spec), p, use_pandas=use_pandas)
